@@ -30,6 +30,7 @@ type sval struct {
 	lin    Lin
 	path   string
 	consts []int64
+	cond   string // svChoice: consts[1] is chosen when cond holds
 }
 
 func (v sval) String() string {
@@ -43,6 +44,9 @@ func (v sval) String() string {
 	case svData:
 		return "data:" + v.path
 	case svChoice:
+		if v.cond != "" {
+			return fmt.Sprintf("choice%v if %s", v.consts, v.cond)
+		}
 		return fmt.Sprintf("choice%v", v.consts)
 	}
 	return "?"
@@ -80,7 +84,14 @@ type guardRec struct {
 }
 
 // encShape is the result of interpreting one encoder (Len or Read).
+type boundRec struct {
+	lin Lin
+	max int64 // the encoder refuses values above max
+	pos token.Pos
+}
+
 type encShape struct {
+	bounds []boundRec
 	writes []*wr
 	rets   []retRec
 	guards []guardRec
@@ -740,6 +751,17 @@ func (in *interp) ifStmt(x *ast.IfStmt) bool {
 			return false
 		}
 	}
+	// upper-bound refusal: if <lin> > K { return …error }
+	if be, ok := an.Unparen(x.Cond).(*ast.BinaryExpr); ok && (be.Op == token.GTR || be.Op == token.GEQ) && terminates(x.Body) && !in.probe {
+		l, r := in.evalInt(be.X), in.evalInt(be.Y)
+		if l.k == svLin && r.k == svLin && r.lin.IsConst() && !l.lin.IsConst() {
+			k := r.lin.C
+			if be.Op == token.GEQ {
+				k--
+			}
+			in.out.bounds = append(in.out.bounds, boundRec{lin: l.lin, max: k, pos: x.Pos()})
+		}
+	}
 	if terminates(x.Body) {
 		in.cond = append(in.cond, cond)
 		saved := in.snapshot()
@@ -770,7 +792,7 @@ func (in *interp) ifStmt(x *ast.IfStmt) bool {
 		}
 		if ov.k == svLin && nv.k == svLin && !ov.lin.Eq(nv.lin) {
 			if ov.lin.IsConst() && nv.lin.IsConst() {
-				in.env[o] = sval{k: svChoice, consts: []int64{ov.lin.C, nv.lin.C}}
+				in.env[o] = sval{k: svChoice, consts: []int64{ov.lin.C, nv.lin.C}, cond: cond}
 			} else {
 				in.issue("variable assigned under condition %s has two different symbolic values", cond)
 			}
